@@ -552,7 +552,7 @@ def _run_basis(case, ctx):
     t = np.arange(n)
     eye = np.eye(n)
     pfree = eye - np.outer(1.0 - 2.0 * (t % 2), 1.0 - 2.0 * (t % 2)) / n if n % 2 == 0 else None
-    sh = _Shifter(ctx, n, axis, freq, dt)
+    sh = _Shifter(ctx, n, axis, freq, dt, case.get("dim"))
 
     def inp(nyq_free):
         base = pfree if nyq_free else eye
@@ -625,7 +625,7 @@ def _run_basis(case, ctx):
             anyfrac = any(f != 0 for _, f in kfs_all)
             nyq_free = anyfrac and n % 2 == 0
             ctx.label("pertrace", "pertrace_" + op["sdtype"], "pertrace_" + op["sshape"],
-                      "pertrace_frac" if anyfrac else "pertrace_int")
+                      "pertrace_frac" if anyfrac else "pertrace_int", "shiftmem_" + op.get("smem", "plain"))
             ctx.nontrivial = True
             uniq = {}
             which = np.zeros(n, dtype=int)
@@ -686,7 +686,8 @@ def _run_sines(case, ctx):
     else:
         vals, exact = _pertrace_values(shd, other)
         s = _shape_pertrace(vals, shd, shape, ax)
-        ctx.label("pertrace", "pertrace_" + shd["sdtype"], "pertrace_" + shd["sshape"])
+        ctx.label("pertrace", "pertrace_" + shd["sdtype"], "pertrace_" + shd["sshape"],
+                  "shiftmem_" + shd.get("smem", "plain"))
         ctx.nontrivial = True
     second = _mk_scalar(case["second"]) if case.get("second") else None
     # signal, trace by trace, and its delayed version
@@ -709,7 +710,14 @@ def _run_sines(case, ctx):
     x = np.moveaxis(x, -1, ax)
     e = np.moveaxis(e, -1, ax)
     x = _layout(x.astype(DT[dt]), case["layout"])
-    sh = _Shifter(ctx, n, axis, case["freq"], dt)
+    sh = _Shifter(ctx, n, axis, case["freq"], dt, case.get("dim"))
+    if case.get("prime"):
+        # a call on other data of the same shape and type first: whatever it leaves behind must not reach the next call
+        ctx.label("primed")
+        xp = np.ascontiguousarray(np.flip(x, axis=ax)) * DT[dt](0.5)
+        sp = 0.75 if not isinstance(s, np.ndarray) else (s[..., ::-1].astype(np.float64) + 0.25)
+        if ctx.call("C07.fshift", sut.fourier().fshift, xp, sp, axis=axis) is ctx.CRASH:
+            return
     y = sh(x, s, f"sines shape {shape} axis {axis} shift {shd}")
     if y is None:
         return
@@ -758,7 +766,10 @@ def _run_corrmax(case, ctx):
         ctx.label("shift_frac")
     else:
         ctx.label("shift_zero" if k == 0 else "shift_int")
-    x = (scale * od.spike(t, c, comps)).astype(DT[dt])
+    dt2 = case.get("dtype2") or dt
+    mem, mem2, nrep = case.get("mem", "plain"), case.get("mem2", "plain"), int(case.get("rep", 0))
+    ctx.label("spike_" + mem, "spike2_" + mem2, "dtype2_" + ("same" if dt2 == dt else dt2), f"repeat{nrep}")
+    x = _mem((scale * od.spike(t, c, comps)).astype(DT[dt]), mem)
     if case["copy"] == "fshift":
         x0 = x.copy()
         x2 = ctx.call("C07.fshift", sut.fourier().fshift, x, s)
@@ -774,27 +785,36 @@ def _run_corrmax(case, ctx):
         ctx.check(ea <= 1e-4, "C07.frac_delay", lambda: f"fshift(spike, {s}) differs from the analytically delayed spike "
                                                        f"by {ea:.3g} of its amplitude")
     else:
-        x2 = (scale * od.spike(t - s, c, comps)).astype(DT[dt])
+        x2 = scale * od.spike(t - s, c, comps)
+    x2 = _mem(np.asarray(x2).astype(DT[dt2]), mem2)
     xa, xb = x.copy(), x2.copy()
-    r = ctx.call("C07.corrmax", sut.waveforms().wave_shift_corrmax, x, x2)
-    if r is ctx.CRASH:
-        return
-    _untouched(ctx, x, xa, "wave_shift_corrmax(spike, .)")
-    _untouched(ctx, x2, xb, "wave_shift_corrmax(., spike2)")
-    if not ctx.check(isinstance(r, tuple) and len(r) == 2 and np.ndim(r[1]) == 0 and np.shape(r[0]) == x.shape,
-                     "C07.corrmax_shape", "wave_shift_corrmax does not return (array like the input, scalar)"):
-        return
-    rs, sc = r
-    d = abs(float(sc) - s)
-    ctx.stat("err_corrmax_shift", d)
-    ctx.check(d <= TOL_DELAY, "C07.corrmax_shift",
-              lambda: f"n={n} comps={comps} applied shift {s}: estimated {float(sc):.4f} (off by {d:.3g} sample)")
+    corrmax = sut.waveforms().wave_shift_corrmax
+    if case.get("prime"):
+        # the same function on another pair of the same length first
+        ctx.label("primed")
+        if ctx.call("C07.corrmax", corrmax, xa[::-1].copy(), 0.5 * xa) is ctx.CRASH:
+            return
     slope = abs(scale) * od.spike_max_slope(comps)
-    er = _err(rs, np.asarray(x, dtype=np.float64))
-    ctx.stat("err_corrmax_realign_over_slope", er / slope)
-    ctx.check(er <= TOL_DELAY * slope + 1e-5 * abs(scale), "C07.corrmax_realign",
-              lambda: f"n={n} comps={comps} shift {s}: re-aligned copy deviates from the original by {er:.3g} = "
-                      f"{er / slope:.3g} x max slope")
+    for r_ in range(1 + nrep):
+        tag = "" if r_ == 0 else f" (call {r_ + 1} with the same argument objects)"
+        r = ctx.call("C07.corrmax", corrmax, x, x2)
+        if r is ctx.CRASH:
+            return
+        _untouched(ctx, x, xa, "wave_shift_corrmax(spike, .)" + tag)
+        _untouched(ctx, x2, xb, "wave_shift_corrmax(., spike2)" + tag)
+        if not ctx.check(isinstance(r, tuple) and len(r) == 2 and np.ndim(r[1]) == 0 and np.shape(r[0]) == x.shape,
+                         "C07.corrmax_shape", "wave_shift_corrmax does not return (array like the input, scalar)" + tag):
+            return
+        rs, sc = r
+        d = abs(float(sc) - s)
+        ctx.stat("err_corrmax_shift", d)
+        ctx.check(d <= TOL_DELAY, "C07.corrmax_shift",
+                  lambda: f"n={n} comps={comps} applied shift {s}{tag}: estimated {float(sc):.4f} (off by {d:.3g} sample)")
+        er = _err(rs, np.asarray(xa, dtype=np.float64))
+        ctx.stat("err_corrmax_realign_over_slope", er / slope)
+        ctx.check(er <= TOL_DELAY * slope + 1e-5 * abs(scale), "C07.corrmax_realign",
+                  lambda: f"n={n} comps={comps} shift {s}{tag}: re-aligned copy deviates from the original by {er:.3g} = "
+                          f"{er / slope:.3g} x max slope")
 
 
 def _run_cluster(case, ctx):
@@ -820,68 +840,118 @@ def _run_cluster(case, ctx):
               "negative_peak" if case["sign"] < 0 else "positive_peak")
     if any(od.split_shift(s)[1] != 0 for s in shifts):
         ctx.nontrivial = True
-    wf_in = wf.copy()
-    r = ctx.call("C07.shift_waveform", sut.waveforms().shift_waveform, wf_in)
-    if r is ctx.CRASH:
-        return
-    if not ctx.check(isinstance(r, tuple) and len(r) == 2 and np.shape(r[0]) == wf.shape and np.shape(r[1]) == (nsp,),
-                     "C07.cluster_shape", "shift_waveform does not return (array like the input, one shift per spike)"):
-        return
-    out, sa = r
-    d = float(np.max(np.abs(np.asarray(sa) + applied)))
-    ctx.stat("err_cluster_shift", d)
-    ctx.check(d <= TOL_DELAY, "C07.cluster_shift",
-              lambda: f"members delayed by {applied.tolist()}: shift_applied {np.round(sa, 4).tolist()} is not minus that "
-                      f"(off by {d:.3g} sample)")
+    dt, nrep = case.get("dtype", "f8"), int(case.get("rep", 0))
+    ctx.label("dtype_" + dt, "layout_" + case.get("layout", "C"), f"repeat{nrep}")
+    # shift_waveform zeroes the NaNs of its argument in place (read-only arrays are rejected); there are none here
+    wf_in = _layout(wf.astype(DT[dt]), case.get("layout", "C"))
     slope = od.spike_max_slope(comps)
-    er = np.max(np.abs(np.asarray(out) - normal[None]), axis=(0, 2)) / (np.abs(amps) * slope)
-    er = float(np.max(er))
-    ctx.stat("err_cluster_realign_over_slope", er)
-    ctx.check(er <= TOL_DELAY + 1e-4, "C07.cluster_realign",
-              lambda: f"members delayed by {applied.tolist()}: re-aligned waveforms deviate from the unshifted ones by "
-                      f"{er:.3g} x max slope")
+    for r_ in range(1 + nrep):
+        tag = "" if r_ == 0 else f" (call {r_ + 1} with the same array object)"
+        r = ctx.call("C07.shift_waveform", sut.waveforms().shift_waveform, wf_in)
+        if r is ctx.CRASH:
+            return
+        if not ctx.check(isinstance(r, tuple) and len(r) == 2 and np.shape(r[0]) == wf.shape and np.shape(r[1]) == (nsp,),
+                         "C07.cluster_shape",
+                         "shift_waveform does not return (array like the input, one shift per spike)" + tag):
+            return
+        out, sa = r
+        d = float(np.max(np.abs(np.asarray(sa, dtype=np.float64) + applied)))
+        ctx.stat("err_cluster_shift", d)
+        ctx.check(d <= TOL_DELAY, "C07.cluster_shift",
+                  lambda: f"members delayed by {applied.tolist()}{tag}: shift_applied {np.round(sa, 4).tolist()} is not "
+                          f"minus that (off by {d:.3g} sample)")
+        er = np.max(np.abs(np.asarray(out, dtype=np.float64) - normal[None]), axis=(0, 2)) / (np.abs(amps) * slope)
+        er = float(np.max(er))
+        ctx.stat("err_cluster_realign_over_slope", er)
+        ctx.check(er <= TOL_DELAY + 1e-4, "C07.cluster_realign",
+                  lambda: f"members delayed by {applied.tolist()}{tag}: re-aligned waveforms deviate from the unshifted "
+                          f"ones by {er:.3g} x max slope")
 
 
 # =================================================================================================
 # mode: parabola
 
+def _three_point(y, im):
+    """(vertex position, vertex value) of the parabola through samples im-1, im, im+1 of the 1-D float64 array y,
+    evaluated in extended precision: the docstring's 'parabolic interpolation around the maxima'."""
+    ym, y0, yp = (od.LD(y[im - 1]), od.LD(y[im]), od.LD(y[im + 1]))
+    a = (ym + yp) / 2 - y0
+    b = (yp - ym) / 2
+    if a == 0:
+        return float(im), float(y0)
+    v = -b / (2 * a)
+    return float(im + v), float(y0 + b * v + a * v * v)
+
+
 def _run_parabola(case, ctx):
     ns, rows = case["ns"], case["rows"]
     i = np.arange(ns)
     x = np.stack([r["a"] - r["b"] * (i - r["c"]) ** 2 for r in rows])
-    ctx.label("parabola", "parabola_2d" if case["as2d"] else "parabola_1d")
+    dt, lay, nrep = case.get("dtype", "f8"), case.get("layout", "C"), int(case.get("rep", 0))
+    ctx.label("parabola", "parabola_2d" if case["as2d"] else "parabola_1d", "dtype_" + dt, "layout_" + lay,
+              f"repeat{nrep}")
+    if dt in ("i4", "u2"):
+        # integer samples (a cross-correlation of integer traces): the parabolas sampled on a grid of ~60000 levels
+        span = max(float(np.max(x) - np.min(x)), 1e-9)
+        x = np.round((x - (np.min(x) if dt == "u2" else np.mean(x))) * (60000.0 / span))
+    x = x.astype(PDT[dt])
     pm = sut.utils().parabolic_max
     arg = x if case["as2d"] else x[0]
+    ro = lay.startswith("ro")
+    arg = _layout(arg, {"ro": "C", "ro_F": "F"}.get(lay, lay) if arg.ndim == 2 or lay in ("last", "neg") else "C")
+    if ro:
+        arg.flags.writeable = False
     arg0 = arg.copy()
-    r = ctx.call("C07.parabolic_max", pm, arg)
-    if r is ctx.CRASH:
-        return
-    _untouched(ctx, arg, arg0, "parabolic_max")
-    if not ctx.check(isinstance(r, tuple) and len(r) == 2, "C07.parabola", "parabolic_max does not return a pair"):
-        return
-    ip, mx = r
-    want_shape = (len(rows),) if case["as2d"] else ()
-    if not ctx.check(np.shape(ip) == want_shape and np.shape(mx) == want_shape, "C07.parabola",
-                     lambda: f"parabolic_max returns shapes {np.shape(ip)}, {np.shape(mx)} for input {arg.shape}"):
-        return
-    ip, mx = np.atleast_1d(ip).astype(float), np.atleast_1d(mx).astype(float)
-    for j, row in enumerate(rows if case["as2d"] else rows[:1]):
-        im = int(np.argmax(x[j]))
-        if im == 0 or im == ns - 1:
-            ctx.label("vertex_at_edge")
-            ctx.check(ip[j] == im and mx[j] == x[j, im], "C07.parabola",
-                      lambda: f"row {row}: maximum on the edge sample {im}, got ({ip[j]}, {mx[j]}) instead of "
-                              f"({im}, {x[j, im]})")
-        else:
+    xs = np.asarray(x, dtype=np.float64)  # what was handed in, exactly
+    exact = dt == "f8"
+    for r_ in range(1 + nrep):
+        tag = "" if r_ == 0 else f" (call {r_ + 1} with the same array object)"
+        r = ctx.call("C07.parabolic_max", pm, arg)
+        if r is ctx.CRASH:
+            return
+        _untouched(ctx, arg, arg0, "parabolic_max" + tag)
+        if not ctx.check(isinstance(r, tuple) and len(r) == 2, "C07.parabola", "parabolic_max does not return a pair"):
+            return
+        ip, mx = r
+        want_shape = (len(rows),) if case["as2d"] else ()
+        if not ctx.check(np.shape(ip) == want_shape and np.shape(mx) == want_shape, "C07.parabola",
+                         lambda: f"parabolic_max returns shapes {np.shape(ip)}, {np.shape(mx)} for input {arg.shape}"):
+            return
+        ip, mx = np.atleast_1d(ip).astype(float), np.atleast_1d(mx).astype(float)
+        for j, row in enumerate(rows if case["as2d"] else rows[:1]):
+            im = int(np.argmax(xs[j]))
+            top = np.flatnonzero(xs[j] == xs[j, im])
+            if not exact and top.size > 1 and not (top.size == 2 and top[1] == im + 1 and im > 0 and im + 1 < ns - 1):
+                ctx.label("maximum_tied_skipped")  # first / last maximum conventions differ: not judged
+                continue
+            if im == 0 or im == ns - 1:
+                ctx.label("vertex_at_edge")
+                ctx.check(ip[j] == im and mx[j] == xs[j, im], "C07.parabola",
+                          lambda: f"row {row}{tag}: maximum on the edge sample {im}, got ({ip[j]}, {mx[j]}) instead of "
+                                  f"({im}, {xs[j, im]})")
+                continue
             ctx.label("vertex_interior")
-            if row["c"] != round(row["c"]):
-                ctx.nontrivial = True
-            ei = abs(ip[j] - row["c"])
-            em = abs(mx[j] - row["a"]) / (1 + abs(row["a"]))
-            ctx.stat("err_parabola_vertex", ei)
-            ctx.stat("err_parabola_value", em)
-            ctx.check(ei <= 1e-6 and em <= 1e-6, "C07.parabola",
-                      lambda: f"row {row} (ns={ns}): got vertex {ip[j]!r}, value {mx[j]!r}")
+            if exact:
+                if row["c"] != round(row["c"]):
+                    ctx.nontrivial = True
+                ei = abs(ip[j] - row["c"])
+                em = abs(mx[j] - row["a"]) / (1 + abs(row["a"]))
+                ctx.stat("err_parabola_vertex", ei)
+                ctx.stat("err_parabola_value", em)
+                ctx.check(ei <= 1e-6 and em <= 1e-6, "C07.parabola",
+                          lambda: f"row {row} (ns={ns}){tag}: got vertex {ip[j]!r}, value {mx[j]!r}")
+            else:
+                ei_, em_ = _three_point(xs[j], im)
+                if ei_ != im:
+                    ctx.nontrivial = True
+                ei = abs(ip[j] - ei_)
+                em = abs(mx[j] - em_) / (1 + abs(em_))
+                ctx.stat("err_parabola3_vertex", ei)
+                ctx.stat("err_parabola3_value", em)
+                ctx.check(ei <= 1e-6 and em <= 1e-6, "C07.parabola",
+                          lambda: f"{dt} samples {xs[j, im - 1:im + 2].tolist()} around index {im} (ns={ns}, layout "
+                                  f"{lay}){tag}: got vertex {ip[j]!r}, value {mx[j]!r}, the parabola through them has "
+                                  f"({ei_!r}, {em_!r})")
 
 
 # =================================================================================================
